@@ -48,6 +48,9 @@ def gen_cases(tier, seed):
         c["gother"] = bool(c["n"] % 2)
         c["mixed"] = bool(c["n"] % 5 == 4)
         cases.append(c)
+    for k in range(24 if tier == "quick" else 400):
+        cases.append({"kind": "stateful", "dtype": ["float32", "float64"][k % 2], "rank": [2, 3, 4][k % 3], "momentum": [0.1, None, 0.5][(k // 2) % 3],
+                      "affine": bool((k // 3) % 2), "n_train": 1 + k % 3, "seed": int(rng.integers(2 ** 31))})
     return cases
 
 
@@ -252,7 +255,55 @@ def run_nn(ns, mon, case):
             "cover": {"ops": [sig], "features": [f for f, b_ in (("0d-result", res0d), ("g-other-dtype", case["gother"]), ("mixed-param-dtype", case["mixed"])) if b_]}}
 
 
+def run_stateful(ns, mon, case):
+    """layers with state: the dtype of outputs and buffers must not drift over a train -> eval history"""
+    nn, T = ns.nn, ns.Tensor
+    rng = gen.rng_for(case["seed"], "st")
+    dt = np.dtype(case["dtype"])
+    C = 3
+    cls = nn.BatchNorm2d if case["rank"] == 4 else nn.BatchNorm1d
+    m = cls(C, momentum=case["momentum"], affine=case["affine"], dtype=dt.type)
+    viol, counters = [], {"stateful_histories": 1}
+    shp = {2: (5, C), 3: (4, C, 3), 4: (3, C, 2, 2)}[case["rank"]]
+
+    def check(tag, y):
+        counters["result_dtype_checks"] = counters.get("result_dtype_checks", 0) + 1
+        if y.dtype != dt:
+            viol.append(V(f"batch_norm-history:{tag}:output-dtype", f"{tag} output is {y.dtype} for a {dt} layer and input", history=hist))
+        for nm in ("running_mean", "running_var"):
+            b = getattr(m, nm)
+            if b is not None and b.dtype != dt:
+                viol.append(V(f"batch_norm-history:{nm}-dtype", f"{nm} became {b.dtype} in a {dt} layer after {tag}", history=hist))
+    hist = []
+    m.train()
+    for i in range(case["n_train"]):
+        x = T(rng.standard_normal(shp).astype(dt), requires_grad=True)
+        hist.append("train-forward")
+        y = m(x)
+        check("training", y)
+        y.sum().backward()
+        if x._grad is not None and x._grad.dtype != dt:
+            viol.append(V("batch_norm-history:input-grad-dtype", f"input grad {x._grad.dtype} for {dt} input"))
+    m.eval()
+    x = T(rng.standard_normal(shp).astype(dt), requires_grad=True)
+    hist.append("eval-forward")
+    y = m(x)
+    check("eval-after-training", y)
+    y.sum().backward()
+    if x._grad is not None and (x._grad.dtype != dt or x._grad.shape != x.shape):
+        viol.append(V("batch_norm-history:input-grad-dtype", f"input grad {x._grad.dtype}/{x._grad.shape} for {dt} input in eval"))
+    d = nn.Dropout(0.3); d.train()
+    yd = d(T(rng.standard_normal(shp).astype(dt)))
+    if yd.dtype != dt:
+        viol.append(V("dropout:output-dtype", f"dropout output {yd.dtype} for {dt} input"))
+    viol += mon.drain()
+    return {"key": ("stateful", case["dtype"], case["rank"], str(case["momentum"]), case["affine"], case["n_train"]), "viol": dedup(viol), "counters": counters,
+            "cover": {"ops": ["batch_norm.history"], "features": ["stateful-history"]}}
+
+
 def run_case(ns, mon, case):
+    if case["kind"] == "stateful":
+        return run_stateful(ns, mon, case)
     return run_tensor(ns, mon, case) if case["kind"] == "tensor" else run_nn(ns, mon, case)
 
 
